@@ -37,6 +37,12 @@ EXTRA: list[tuple[str, str]] = [
     ("unbalanced", "qaa **qab *qac `qad [qae](qaf <qag {% qah\n"),
     ("only-markers", "-\n\n1.\n\n>\n\n#\n"),
     ("table-ragged", "| qaa | qab\n|--|\n| qac | qad | qae |\n"),
+    ("fm-unclosed-no-newline", "---\ntitle: qaa\nauthor: qab"),
+    ("fm-only-no-newline", "---\nk: qaa\n---"),
+    ("fm-closed-no-newline", "---\nk: v\n---\nqaa qab"),
+    ("no-final-newline", "qaa qab"),
+    ("code-no-final-newline", "```\nqaa\n```"),
+    ("list-code-blank-quote", "> 1. qaa\n>\n>    ```\n>    a\n>\n>    b\n>    ```\n"),
 ]
 
 
